@@ -57,9 +57,13 @@ for _p, _t in {
     CLAIMS[_p]["text"] = CLAIMS[_p]["text"] + " " + _HS + _t
     CLAIMS[_p]["note"] = CLAIMS[_p]["note"] + " " + _HN
 _T = "bounded symbolic execution of the real code with z3 (jsym): solver-chosen schedules and inputs, exhaustive path exploration"
+_KC = ("K-collect: real HpcSubmitter._update_completed_jobs/_cancel_job from every invariant-satisfying state of 3 (4) jobs with the round's "
+       "collected results (which submitted jobs, finished or canceled on their node, exit code a z3 integer in [-255,255]) symbolic: canceled set = reference fix-point, "
+       "newly-completed = collected + canceled, remaining blockers shrink exactly by the jobs whose outcome was recorded. ")
+CLAIMS["C02"]["text"] += " " + _KC
 CLAIMS["C03"] = dict(text=_HS + "at completion results.json (read through ResultsSummary) has exactly one entry per job, no missing jobs, and every classification equals a reference topological evaluation of the DAG from the chosen exit codes; includes local mode, 2 groups, time-based batching.", note=_HN, technique=_T)
-CLAIMS["C04"] = dict(text=_HS + "a job is canceled (status canceled, return code != 0, zero launches) exactly when the reference fix-point says so, for failing job and dependants in the same batch, the next batch, or rounds later (batch size 1, max_nodes 1).", note=_HN, technique=_T)
-CLAIMS["C09"] = dict(text=_HS + "after every release of the cluster lock the status is read through Cluster.deserialize and the property's clauses are asserted verbatim (counter order, recounts, done => result row, blockers empty once submitted, versions increase with every change, states/counters/blockers monotone, complete stays complete).", note=_HN, technique=_T)
+CLAIMS["C04"] = dict(text=_KC + "K-queue: the node-level loop (see C02). " + _HS + "a job is canceled (status canceled, return code != 0, zero launches) exactly when the reference fix-point says so, for failing job and dependants in the same batch, the next batch, or rounds later (batch size 1, max_nodes 1).", note=_HN, technique=_T)
+CLAIMS["C09"] = dict(text=_KC + _HS + "after every release of the cluster lock the status is read through Cluster.deserialize and the property's clauses are asserted verbatim (counter order, recounts, done => result row, blockers empty once submitted, versions increase with every change, states/counters/blockers monotone, complete stays complete).", note=_HN, technique=_T)
 CLAIMS["C12"] = dict(text=_HS + "with solver-chosen lost batches (sbatch failing on every retry, a pending batch cancelled by the scheduler, a running node killed at any scheduler step): after the documented recovery the submission is complete, results hold exactly the rows recorded before the loss with the real exit codes, missing_jobs = all other jobs, canceled jobs never ran, no job started without its blockers' rows.", note=_HN + " kill -9 of a node is modelled by unwinding its thread and restoring a file-system snapshot taken at the kill point.", technique=_T)
 
 CLAIMS["C18"] = dict(
